@@ -3,13 +3,21 @@
 (* serialize_public / unserialize_public, Token.receive_content.                                   *)
 (* Abstract layer : ConnectedValid(offered) - mentions no arrival order.                           *)
 (* Implementation layer : elements (insertion ordered dict), unchained (ordered waiting area with  *)
-(* capacity UCap, oldest evicted), the chain reaction that wakes waiting children.                 *)
+(* capacity UCap, oldest evicted), the chain reaction that wakes waiting children; the key the     *)
+(* object ends up with for each way of constructing it (view, treeKey); wire strings: Unserialize  *)
+(* offers every chunk of a string, in any chunk order, and reports whether all were taken (ret).   *)
 EXTENDS Naturals, Sequences, FiniteSets, TLC, SequencesExt
 
 CONSTANTS N,           \* good tokens 1..N (valid owner signature); tree shape chosen in Init
           UCap,        \* capacity of the waiting area (unchained_max_size)
           WakeAll,     \* TRUE: every waiting child is woken (repaired code). FALSE: pinned code woke the first only
-          WithContent  \* TRUE: explore content attachment as well
+          WithContent, \* TRUE: explore content attachment as well
+          Views,       \* how the tree object was constructed (subset of {"pub", "full", "own"}), chosen in Init
+          ReduceKey,   \* TRUE: the constructor reduces whatever key object it is given to its public part (as the
+                       \* library does).  FALSE (negative control): the key object is kept as given
+          WireLen,     \* 0: no wire action.  k > 0: unserialize_public of every chunk sequence of length <= k
+          WireStops    \* FALSE: as documented.  TRUE (negative control): unserialize_public gives up at the first
+                       \* chunk that gather_token does not take at once
 
 Genesis == 0
 Good    == 1..N
@@ -24,14 +32,28 @@ VARIABLES parent,      \* Good -> 0..N, parent[t] < t
           cont,        \* tokens whose stored object (in elements or unchained) carries content
           offered,     \* history: every token ever handed to gather_token
           contOffered, \* history: tokens whose correct content was ever supplied
-          overflowed   \* history: the waiting area has evicted something
-vars == <<parent, fpar, elements, unchained, cont, offered, contOffered, overflowed>>
+          overflowed,  \* history: the waiting area has evicted something
+          view,        \* "pub":  TokenTree(public_key = K.pub())     a view made from the bare public key
+                       \* "full": TokenTree(public_key = K)           a view made from a key object that also carries
+                       \*         the secret part (a PrivateKey is-a PublicKey in the key vault)
+                       \* "own":  TokenTree(private_key = K)          the owner's own tree, which gathers as well
+          treeKey,     \* the key the tree verifies with and whose hash is its genesis pointer
+          ret          \* result of the last public call: gather_token -> token (TRUE) / None (FALSE);
+                       \* unserialize_public -> "all information was correctly unserialized".  "-" when not tracked
+vars == <<parent, fpar, elements, unchained, cont, offered, contOffered, overflowed, view, treeKey, ret>>
 
-SigOk(t) == t # F
+(* Abstract layer: the tree's key IS the owner's public key, however the tree object was built: tokens are *)
+(* signed by a key pair, the genesis pointer is SHA3-256(PUBLIC KEY).                                      *)
+OwnerSigned(t) == t # F
+(* Implementation layer: the object verifies with treeKey and compares parents with H(treeKey).  Every     *)
+(* token of the universe was signed for / points at the owner's PUBLIC key.                                *)
+KeyOf(v)  == IF ReduceKey \/ v = "pub" THEN "ownerPub" ELSE "ownerFull"
+SigOk(t)  == OwnerSigned(t) /\ treeKey = "ownerPub"
 Par(t)   == IF t \in Good THEN parent[t] ELSE IF t = F THEN fpar ELSE F
+AtRoot(t) == Par(t) = 0 /\ treeKey = "ownerPub"    \* the token points at H(ownerPub); the tree compares with H(treeKey)
 
 RECURSIVE Connected(_, _)
-Connected(t, S) == /\ t \in S /\ SigOk(t)
+Connected(t, S) == /\ t \in S /\ OwnerSigned(t)
                    /\ (Par(t) = Genesis \/ (Par(t) # t /\ Connected(Par(t), S)))
 ConnectedValid(S) == {t \in S : Connected(t, S)}
 
@@ -42,6 +64,7 @@ Init == /\ parent \in [Good -> 0..N]
         /\ fpar \in {0, 1}
         /\ elements = <<>> /\ unchained = <<>> /\ cont = {} /\ offered = {}
         /\ contOffered = {} /\ overflowed = FALSE
+        /\ view \in Views /\ treeKey = KeyOf(view) /\ ret = "-"
 
 Without(s, x) == SelectSeq(s, LAMBDA y : y # x)
 
@@ -63,7 +86,7 @@ ParFun == [t \in Tokens |-> Par(t)]
 GatherStep(st, t, wc) ==
   \* st = [els, unch, cont, ovf]
   IF ~SigOk(t) THEN st
-  ELSE IF Par(t) # Genesis /\ Par(t) \notin Range(st.els) THEN
+  ELSE IF ~AtRoot(t) /\ Par(t) \notin Range(st.els) THEN
          IF t \in Range(st.unch) THEN st
          ELSE LET u == Append(st.unch, t)
                   c == IF wc THEN st.cont \cup {t} ELSE st.cont
@@ -75,22 +98,48 @@ GatherStep(st, t, wc) ==
   ELSE LET r == Wake(t, Append(st.els, t), st.unch, ParFun)
        IN [els |-> r[1], unch |-> r[2], cont |-> IF wc THEN st.cont \cup {t} ELSE st.cont, ovf |-> st.ovf]
 
+(* what gather_token returns: the (stored) token when it is part of the tree afterwards, None otherwise *)
+GatherRet(st, t) == SigOk(t) /\ (AtRoot(t) \/ Par(t) \in Range(st.els))
+
+Cur == [els |-> elements, unch |-> unchained, cont |-> cont, ovf |-> overflowed]
+Tracked(b) == IF WireLen > 0 THEN b ELSE "-"
+
 Gather(t, wc) ==
-  LET r == GatherStep([els |-> elements, unch |-> unchained, cont |-> cont, ovf |-> overflowed], t, wc) IN
+  LET r == GatherStep(Cur, t, wc) IN
   /\ offered' = offered \cup {t}
   /\ contOffered' = IF wc THEN contOffered \cup {t} ELSE contOffered
   /\ elements' = r.els /\ unchained' = r.unch /\ cont' = r.cont /\ overflowed' = r.ovf
-  /\ UNCHANGED <<parent, fpar>>
+  /\ ret' = Tracked(GatherRet(Cur, t))
+  /\ UNCHANGED <<parent, fpar, view, treeKey>>
+
+(* unserialize_public(s): s is cut into chunks, EVERY chunk is offered to gather_token in the order of the     *)
+(* byte string, whatever happened to the chunks before it; the result says whether all of them were taken.     *)
+(* The chunks of a wire string are arbitrary: any order (serialize_public(up_to) lists leaf first), forged,     *)
+(* foreign, dangling and repeated chunks.  <<st, ok>>                                                            *)
+RECURSIVE FoldRet(_, _, _)
+FoldRet(st, seq, ok) == IF seq = <<>> \/ (WireStops /\ ~ok) THEN <<st, ok>>
+                        ELSE FoldRet(GatherStep(st, Head(seq), FALSE), Tail(seq), ok /\ GatherRet(st, Head(seq)))
+
+(* explored: strings whose chunks are pairwise different (repeats across calls and against the tree remain) *)
+WireSeqs == {s \in UNION {[1..k -> Tokens] : k \in 1..WireLen} : \A i, j \in DOMAIN s : s[i] = s[j] => i = j}
+
+Unserialize(seq) ==
+  LET r == FoldRet(Cur, seq, TRUE) IN
+  /\ offered' = offered \cup Range(seq)
+  /\ elements' = r[1].els /\ unchained' = r[1].unch /\ cont' = r[1].cont /\ overflowed' = r[1].ovf
+  /\ ret' = Tracked(r[2])
+  /\ UNCHANGED <<parent, fpar, view, treeKey, contOffered>>
 
 (* Token.receive_content on a token of the tree: accepted only if it hashes to the content pointer *)
 ReceiveContent(t, good) ==
   /\ WithContent /\ t \in Els
   /\ cont' = IF good THEN cont \cup {t} ELSE cont
   /\ contOffered' = IF good THEN contOffered \cup {t} ELSE contOffered
-  /\ UNCHANGED <<parent, fpar, elements, unchained, offered, overflowed>>
+  /\ UNCHANGED <<parent, fpar, elements, unchained, offered, overflowed, view, treeKey, ret>>
 
 Next == \/ \E t \in Tokens, wc \in (IF WithContent THEN BOOLEAN ELSE {FALSE}) : Gather(t, wc)
         \/ \E t \in Tokens, good \in BOOLEAN : ReceiveContent(t, good)
+        \/ \E seq \in WireSeqs : Unserialize(seq)
 
 Spec == Init /\ [][Next]_vars
 
@@ -109,12 +158,26 @@ PathSeq(t) == IF Par(t) = Genesis \/ Par(t) \notin Els THEN <<t>> ELSE <<t>> \o 
 TypeOK == /\ Els \subseteq Tokens /\ Range(unchained) \subseteq Tokens
           /\ Len(elements) = Cardinality(Els) /\ Len(unchained) = Cardinality(Range(unchained))
           /\ Len(unchained) <= UCap
+          /\ view \in Views /\ treeKey \in {"ownerPub", "ownerFull"} /\ (WireLen = 0 => ret = "-")
 
+KeyIsPublic        == treeKey = "ownerPub"      \* whatever key object the tree was built from
 OnlyValidConnected == Els \subseteq ConnectedValid(offered)
 Complete           == ~overflowed => Els = ConnectedValid(offered)
 NeverBad           == F \notin Els /\ D \notin Els
 WaitingAreDisjoint == Els \cap Range(unchained) = {}
 ContentBound       == cont \subseteq contOffered
 PublicRoundTrip    == Range(Reload(elements).els) = Els
+PublicReloadsClean == FoldRet(Fresh, elements, TRUE)[2]     \* ... and unserialize_public reports success for it
+(* The public calls, judged in every reachable state for every call that could come next (this is the       *)
+(* action property "every Gather / Unserialize step ..." written as a state predicate over the pure step      *)
+(* functions, which TLC evaluates once per state instead of once per transition).                             *)
+(* - the result means what the documentation says                                                              *)
+RetMeansContained  == \A t \in Tokens : GatherRet(Cur, t) = (t \in Range(GatherStep(Cur, t, FALSE).els))
+WireRetSound       == \A seq \in WireSeqs : LET r == FoldRet(Cur, seq, TRUE) IN
+                                               r[2] => Range(seq) \subseteq Range(r[1].els)
+(* - one wire string has the effect of all its chunks, in any chunk order: nothing behind a refused or parked   *)
+(*   chunk is skipped                                                                                            *)
+WireIsFold         == \A seq \in WireSeqs : LET r == FoldRet(Cur, seq, TRUE)[1] IN
+                          ~r.ovf => Range(r.els) = ConnectedValid(offered \cup Range(seq))
 PathRoundTrip      == \A t \in Els : Len(PathSeq(t)) <= UCap + 1 => Range(Reload(PathSeq(t)).els) = Range(PathSeq(t))
 =============================================================================
